@@ -7,7 +7,8 @@ the caller's back.  Mathlib-free.
     (cashews/wrapper/tags.py) — the tags backend may be a dedicated one under the prefix `_tag:`
   * `delete_tags`                                                → `set_pop` + `delete_many`
   * `get_or_set`                                                 → `get`, the caller's default, `set`
-  * `cache.lock` (`_BackendInterface.lock` run on the facade)    → `set_lock`, `ping(b"LOCK")`, `unlock`
+  * `cache.lock` (`_BackendInterface.lock` run on the facade)    → `set_lock`, the liveness probe
+    (`_lock_probe(key)`: a PING with message `LOCK` routed — and disable-checked — by the LOCK KEY), `unlock`
   * `@cache.invalidate(template)`                                → the body, then `delete_match`
   * the on-remove callback the facade registers on every backend → `set_remove` on the tags backend
 
@@ -29,7 +30,8 @@ def tagPrefix : List Nat := [95, 116, 97, 103, 58]
 /-- `self._tags_key_prefix + tag` -/
 def tagKey (tag : List Nat) : List Nat := tagPrefix ++ tag
 
-/-- the message of `ping(b"LOCK")`, decoded: the string the facade routes that ping by -/
+/-- the message of the liveness probe `ping(b"LOCK")`, decoded.  A plain `cache.ping(msg)` is routed by
+the text of its message; the probe of `lock()` is NOT (fix D43): it is routed by the lock key. -/
 def lockPing : List Nat := [76, 79, 67, 75]
 
 /-- What a facade command handed back to the composite that called it — as much of it as the control
@@ -200,14 +202,21 @@ while True:                                                          # backends/
     lock = await self.set_lock(key, identifier, expire=expire)
     if lock is None: yield; return                                   # the command is disabled: no locking
     if not lock:
-        if await self.ping(b"LOCK") is None: yield; return
+        if await self._lock_probe(key) is None: yield; return
         if wait: await asyncio.sleep(check_interval); continue
         raise LockedError(...)
     try: yield
     finally: await self.unlock(key, identifier)
     return
 ```
-at most `fuel` rounds -/
+with, on the facade (commands.py, fix D43),
+```
+async def _lock_probe(self, key):
+    return await self._with_middlewares(Command.PING, key)(message=b"LOCK")
+```
+the liveness probe is a PING whose ROUTING STRING is the lock key (`.keyed .ping key`; the message is
+`lockPing`): it asks — through the whole middleware stack, disable check included — the backend that
+refused the lock, not the backend the text "LOCK" would be routed to.  At most `fuel` rounds. -/
 def lockProg (key : List Nat) (wait : Bool) : Nat → Prog
   | 0 => .outOfFuel
   | fuel + 1 =>
@@ -216,10 +225,18 @@ def lockProg (key : List Nat) (wait : Bool) : Nat → Prog
       | .none_ => .body (.done .none_)
       | a =>
         if a.truth then .body (.call (.keyed .unlock key) fun _ => .done .none_)
-        else .call (.keyed .ping lockPing) fun p =>
+        else .call (.keyed .ping key) fun p =>
           match p with
           | .none_ => .body (.done .none_)
           | _ => if wait then lockProg key wait fuel else .locked
+
+/-- every facade command of the program is a single-key command on `key` -/
+def Prog.OnlyKey (key : List Nat) : Prog → Prop
+  | .done _ => True
+  | .locked => True
+  | .outOfFuel => True
+  | .body k => Prog.OnlyKey key k
+  | .call f k => (∃ cmd, f = .keyed cmd key) ∧ ∀ a, Prog.OnlyKey key (k a)
 
 inductive Comp where
   /-- any single public command (the trivial composite) -/
